@@ -26,7 +26,7 @@ static void *verif_malloc(size_t n)
 	void *p;
 	CHECK(n <= STROBJ, "string allocation fits the modelled object size");
 	p = malloc(STROBJ);
-	__CPROVER_assume(p != NULL);
+	ASSUME(p != NULL);
 	return p;
 }
 static char *verif_strdup(const char *s)
